@@ -934,7 +934,7 @@ def run_stream(ctx, model, cases, stream, tol=common.TOL, on_result=None, rerun=
             if d:
                 ctx.fail("%s: with numpy.seterr(divide='raise', invalid='raise') set by the caller the outcome differs (%s%s)" % (
                     c.cmd, d, "; " + str(out4.get("text"))[:80] if out4["status"] == "err" else ""), c.describe())
-        if plain and out["status"] == "ok" and c.inputs and not any(numpy.ma.getmaskarray(a).any() for a in c.inputs) and out["vis"][3] is not None and None not in out["vis"][3] and ctx.rng.random() < 0.5:
+        if plain and out["status"] == "ok" and c.inputs and not any(numpy.ma.getmaskarray(a).any() for a in c.inputs) and out["vis"][3] is not None and None not in out["vis"][3] and (ctx.rng.random() < 0.5 or getattr(c, "always_plain", False)):
             # (a result with missing cells although no input cell is missing marks an undefined operation - 0/0 of a constant field's deviation, a zero divisor:
             # what a plain array holds there instead is outside the comparison)
             # fields without missing cells handed over as plain ndarrays (a plug-in command's result): the same values come back, as a masked array
